@@ -49,7 +49,7 @@ func VerifC14Include() {
 	diskSrc := "D[{{ v }}{{ s }}{{ q }}]"
 	cacheSrc := "C[{{ v }}{{ q }}{{ s }}]"
 	e := NewEngine()
-	state := nd.Choice(5)
+	state := nd.Choice(7)
 	want := ""
 	wantErr := false
 	switch state {
@@ -66,6 +66,16 @@ func VerifC14Include() {
 		nd.Assert(err == nil, "cache-parse")
 		want = diskSrc
 	case 3: // missing everywhere
+		wantErr = true
+	case 5: // registered twice: the source registered last is the one in use
+		_, err := e.ParseTemplateAndCache([]byte("OLD{{ v }}"), target, 1)
+		nd.Assert(err == nil, "cache-parse")
+		_, err = e.ParseTemplateAndCache([]byte(cacheSrc), target, 1)
+		nd.Assert(err == nil, "cache-parse-again")
+		want = cacheSrc
+	case 6: // registered under another path only: not found
+		_, err := e.ParseTemplateAndCache([]byte(cacheSrc), target+".other", 1)
+		nd.Assert(err == nil, "cache-parse")
 		wantErr = true
 	case 4: // unreadable (not a "does not exist" error): the cache must not be used
 		nd.SetFile(target, "", 2)
